@@ -28,6 +28,7 @@ CONSTANTS
   MaxNoise = 6
   Catalogue <- MCCatalogue
   Export = TRUE
+  ExportMod = 1
 INVARIANT RejectsNSC
 INVARIANT FinishTotal
 INVARIANT GridExact
